@@ -1,4 +1,1369 @@
-//! Event vocabulary (filled in by the event cells).
-use bevy::prelude::*;
+//! Event vocabulary, observation plumbing and the event scenario (C04, C05, C07).
 
-pub fn register(_app: &mut App) {}
+use std::{
+    collections::{BTreeMap, BTreeSet},
+    hash::{Hash, Hasher},
+};
+
+use bevy::{ecs::entity::MapEntities, prelude::*};
+use bevy_replicon::{client::ServerUpdateTick, prelude::*, shared::server_entity_map::ServerEntityMap};
+use serde::{Deserialize, Serialize};
+
+use crate::{
+    explore::{ChoicePoint, Scenario, Summary, Violation},
+    sim::*,
+};
+
+// ------------------------------------------------------------------------------------------
+// Vocabulary
+// ------------------------------------------------------------------------------------------
+
+pub type Seq = [u8; 4];
+pub const SEQ_A: u8 = 0xE7;
+pub const SEQ_Z: u8 = 0x7E;
+pub fn seq(tag: u8, n: u8) -> Seq {
+    [SEQ_A, tag, n, SEQ_Z]
+}
+
+macro_rules! plain_event {
+    ($name:ident) => {
+        #[derive(Event, Serialize, Deserialize, Clone, Debug)]
+        pub struct $name(pub Seq);
+    };
+}
+plain_event!(E1); // ordered, dependent
+plain_event!(E2); // unordered, dependent
+plain_event!(E3); // unreliable, dependent
+plain_event!(EI); // ordered, independent
+plain_event!(T1); // trigger, ordered, dependent (optionally with a target)
+plain_event!(TI); // trigger, ordered, independent
+plain_event!(C1); // client event, ordered
+plain_event!(C2); // client event, unordered
+plain_event!(C3); // client event, unreliable
+plain_event!(CT); // client trigger, ordered (optionally with a target)
+
+/// Mapped server event, ordered, dependent.
+#[derive(Event, Serialize, Deserialize, Clone, Debug, MapEntities)]
+pub struct EM {
+    pub seq: Seq,
+    #[entities]
+    pub e: Entity,
+}
+/// Mapped client event, ordered.
+#[derive(Event, Serialize, Deserialize, Clone, Debug, MapEntities)]
+pub struct CM {
+    pub seq: Seq,
+    #[entities]
+    pub e: Entity,
+}
+
+#[derive(Clone, Copy, Debug, PartialEq, Eq, Hash, PartialOrd, Ord, Serialize)]
+pub enum SK {
+    E1,
+    E2,
+    E3,
+    EM,
+    EI,
+    T1,
+    TI,
+}
+impl SK {
+    pub fn tag(self) -> u8 {
+        self as u8 + 1
+    }
+    pub fn independent(self) -> bool {
+        matches!(self, SK::EI | SK::TI)
+    }
+    pub fn reliable(self) -> bool {
+        !matches!(self, SK::E3)
+    }
+    pub fn ordered(self) -> bool {
+        matches!(self, SK::E1 | SK::EM | SK::EI | SK::T1 | SK::TI)
+    }
+    pub const ALL: [SK; 7] = [SK::E1, SK::E2, SK::E3, SK::EM, SK::EI, SK::T1, SK::TI];
+}
+
+#[derive(Clone, Copy, Debug, PartialEq, Eq, Hash, PartialOrd, Ord, Serialize)]
+pub enum CK {
+    C1,
+    C2,
+    C3,
+    CM,
+    CT,
+}
+impl CK {
+    pub fn tag(self) -> u8 {
+        self as u8 + 11
+    }
+    pub fn reliable(self) -> bool {
+        !matches!(self, CK::C3)
+    }
+    pub fn ordered(self) -> bool {
+        matches!(self, CK::C1 | CK::CM | CK::CT)
+    }
+    pub const ALL: [CK; 5] = [CK::C1, CK::C2, CK::C3, CK::CM, CK::CT];
+}
+
+/// Channel ids of the vocabulary, recorded at registration.
+#[derive(Resource, Clone, Debug, Default)]
+pub struct EvChannels {
+    pub server: BTreeMap<SK, usize>,
+    pub client: BTreeMap<CK, usize>,
+}
+
+#[derive(Clone, Debug, PartialEq, Eq, Hash)]
+pub struct Obs {
+    pub tag: u8,
+    pub n: u8,
+    /// `ServerUpdateTick` of the observing app at the moment of delivery.
+    pub update_tick: u32,
+    /// Entity carried by the event / trigger target, as seen by the observer.
+    pub entity: Option<u64>,
+    /// ... translated back to the server's entity through the observer's entity map.
+    pub entity_as_server: Option<u64>,
+    pub entity_alive: bool,
+    /// `FromClient::client` for client events observed on the server.
+    pub from: Option<u64>,
+}
+
+#[derive(Resource, Default)]
+pub struct Observed(pub Vec<Obs>);
+
+/// Connection entities named by `DisconnectRequest` events.
+#[derive(Resource, Default)]
+pub struct DisconnectSeen(pub Vec<u64>);
+
+fn read_disconnect_requests(mut r: EventReader<DisconnectRequest>, mut o: ResMut<DisconnectSeen>) {
+    for e in r.read() {
+        o.0.push(e.client.to_bits());
+    }
+}
+
+fn note_plain(o: &mut Observed, s: &Seq, tick: &ServerUpdateTick, from: Option<Entity>) {
+    o.0.push(Obs {
+        tag: s[1],
+        n: s[2],
+        update_tick: tick.get(),
+        entity: None,
+        entity_as_server: None,
+        entity_alive: false,
+        from: from.map(|e| e.to_bits()),
+    });
+}
+
+macro_rules! server_reader {
+    ($fn:ident, $t:ty) => {
+        fn $fn(mut r: EventReader<$t>, tick: Res<ServerUpdateTick>, mut o: ResMut<Observed>) {
+            for e in r.read() {
+                note_plain(&mut o, &e.0, &tick, None);
+            }
+        }
+    };
+}
+server_reader!(read_e1, E1);
+server_reader!(read_e2, E2);
+server_reader!(read_e3, E3);
+server_reader!(read_ei, EI);
+
+macro_rules! client_reader {
+    ($fn:ident, $t:ty) => {
+        fn $fn(
+            mut r: EventReader<FromClient<$t>>,
+            tick: Res<ServerUpdateTick>,
+            mut o: ResMut<Observed>,
+        ) {
+            for e in r.read() {
+                note_plain(&mut o, &e.event.0, &tick, Some(e.client));
+            }
+        }
+    };
+}
+client_reader!(read_c1, C1);
+client_reader!(read_c2, C2);
+client_reader!(read_c3, C3);
+
+fn note_entity(
+    o: &mut Observed,
+    s: &Seq,
+    tick: &ServerUpdateTick,
+    e: Entity,
+    map: &ServerEntityMap,
+    entities: &bevy::ecs::entity::Entities,
+    from: Option<Entity>,
+) {
+    let has = e != Entity::PLACEHOLDER;
+    o.0.push(Obs {
+        tag: s[1],
+        n: s[2],
+        update_tick: tick.get(),
+        entity: has.then(|| e.to_bits()),
+        entity_as_server: map.to_server().get(&e).map(|s| s.to_bits()),
+        entity_alive: has && entities.contains(e),
+        from: from.map(|e| e.to_bits()),
+    });
+}
+
+fn read_em(
+    mut r: EventReader<EM>,
+    tick: Res<ServerUpdateTick>,
+    map: Res<ServerEntityMap>,
+    entities: &bevy::ecs::entity::Entities,
+    mut o: ResMut<Observed>,
+) {
+    for e in r.read() {
+        note_entity(&mut o, &e.seq, &tick, e.e, &map, entities, None);
+    }
+}
+
+fn read_cm(
+    mut r: EventReader<FromClient<CM>>,
+    tick: Res<ServerUpdateTick>,
+    map: Res<ServerEntityMap>,
+    entities: &bevy::ecs::entity::Entities,
+    mut o: ResMut<Observed>,
+) {
+    for e in r.read() {
+        note_entity(&mut o, &e.event.seq, &tick, e.event.e, &map, entities, Some(e.client));
+    }
+}
+
+pub fn register(app: &mut App) {
+    let mut ch = EvChannels::default();
+    let sc = |app: &App| app.world().resource::<RepliconChannels>().server_channels().len();
+    let cc = |app: &App| app.world().resource::<RepliconChannels>().client_channels().len();
+
+    ch.server.insert(SK::E1, sc(app));
+    app.add_server_event::<E1>(Channel::Ordered);
+    ch.server.insert(SK::E2, sc(app));
+    app.add_server_event::<E2>(Channel::Unordered);
+    ch.server.insert(SK::E3, sc(app));
+    app.add_server_event::<E3>(Channel::Unreliable);
+    ch.server.insert(SK::EM, sc(app));
+    app.add_mapped_server_event::<EM>(Channel::Ordered);
+    ch.server.insert(SK::EI, sc(app));
+    app.add_server_event::<EI>(Channel::Ordered)
+        .make_event_independent::<EI>();
+    ch.server.insert(SK::T1, sc(app));
+    app.add_server_trigger::<T1>(Channel::Ordered);
+    ch.server.insert(SK::TI, sc(app));
+    app.add_server_trigger::<TI>(Channel::Ordered)
+        .make_trigger_independent::<TI>();
+
+    ch.client.insert(CK::C1, cc(app));
+    app.add_client_event::<C1>(Channel::Ordered);
+    ch.client.insert(CK::C2, cc(app));
+    app.add_client_event::<C2>(Channel::Unordered);
+    ch.client.insert(CK::C3, cc(app));
+    app.add_client_event::<C3>(Channel::Unreliable);
+    ch.client.insert(CK::CM, cc(app));
+    app.add_mapped_client_event::<CM>(Channel::Ordered);
+    ch.client.insert(CK::CT, cc(app));
+    app.add_client_trigger::<CT>(Channel::Ordered);
+
+    app.insert_resource(ch)
+        .init_resource::<Observed>()
+        .init_resource::<DisconnectSeen>()
+        .add_systems(Update, read_disconnect_requests);
+    app.add_systems(
+        Update,
+        (
+            read_e1, read_e2, read_e3, read_ei, read_em, read_c1, read_c2, read_c3, read_cm,
+        ),
+    );
+    app.add_observer(
+        |t: Trigger<T1>,
+         tick: Res<ServerUpdateTick>,
+         map: Res<ServerEntityMap>,
+         entities: &bevy::ecs::entity::Entities,
+         mut o: ResMut<Observed>| {
+            note_entity(&mut o, &t.event().0, &tick, t.target(), &map, entities, None);
+        },
+    );
+    app.add_observer(
+        |t: Trigger<TI>,
+         tick: Res<ServerUpdateTick>,
+         map: Res<ServerEntityMap>,
+         entities: &bevy::ecs::entity::Entities,
+         mut o: ResMut<Observed>| {
+            note_entity(&mut o, &t.event().0, &tick, t.target(), &map, entities, None);
+        },
+    );
+    app.add_observer(
+        |t: Trigger<FromClient<CT>>,
+         tick: Res<ServerUpdateTick>,
+         map: Res<ServerEntityMap>,
+         entities: &bevy::ecs::entity::Entities,
+         mut o: ResMut<Observed>| {
+            note_entity(
+                &mut o,
+                &t.event().event.0,
+                &tick,
+                t.target(),
+                &map,
+                entities,
+                Some(t.event().client),
+            );
+        },
+    );
+}
+
+pub fn drain_observed(app: &mut App) -> Vec<Obs> {
+    std::mem::take(&mut app.world_mut().resource_mut::<Observed>().0)
+}
+
+/// All `(tag, n)` sequence markers contained in a message.
+pub fn seqs_in(bytes: &[u8]) -> Vec<(u8, u8)> {
+    bytes
+        .windows(4)
+        .filter(|w| w[0] == SEQ_A && w[3] == SEQ_Z)
+        .map(|w| (w[1], w[2]))
+        .collect()
+}
+
+// ------------------------------------------------------------------------------------------
+// Emission
+// ------------------------------------------------------------------------------------------
+
+#[derive(Clone, Copy, Debug, PartialEq, Eq, Hash, Serialize)]
+pub enum Mode {
+    Broadcast,
+    Except(u8),
+    Direct(u8),
+}
+
+#[derive(Clone, Copy, Debug, PartialEq, Eq, Hash, Serialize)]
+pub enum EvOp {
+    Nop,
+    World(Op),
+    /// Server emits an event of a kind with a send mode, optionally referencing an entity slot.
+    EmitS(SK, Mode, Option<u8>),
+    /// Client `c` emits an event, optionally referencing an entity slot (mapped to the client's entity).
+    EmitC(u8, CK, Option<u8>),
+    Connect(u8),
+    Disconnect(u8),
+    /// Custom authorization: insert `AuthorizedClient` on the client's connection entity.
+    Authorize(u8),
+}
+
+impl EvOp {
+    pub fn show(&self) -> String {
+        match self {
+            EvOp::Nop => "nop".into(),
+            EvOp::World(op) => op.show(),
+            EvOp::EmitS(k, m, r) => format!(
+                "server emits {k:?} {}{}",
+                match m {
+                    Mode::Broadcast => "to all".to_string(),
+                    Mode::Except(c) => format!("to all but c{c}"),
+                    Mode::Direct(c) => format!("to c{c}"),
+                },
+                r.map(|s| format!(" ref e{}", s + 1)).unwrap_or_default()
+            ),
+            EvOp::EmitC(c, k, r) => format!(
+                "c{c} emits {k:?}{}",
+                r.map(|s| format!(" ref e{}", s + 1)).unwrap_or_default()
+            ),
+            EvOp::Connect(c) => format!("connect c{c}"),
+            EvOp::Disconnect(c) => format!("disconnect c{c}"),
+            EvOp::Authorize(c) => format!("authorize c{c}"),
+        }
+    }
+}
+
+#[derive(Clone, Debug)]
+pub struct Emitted {
+    pub tag: u8,
+    pub n: u8,
+    pub server_kind: Option<SK>,
+    pub client_kind: Option<CK>,
+    /// Intended recipients (server events): (client, session) pairs fixed at emission.
+    pub recipients: BTreeSet<(usize, u32)>,
+    /// Sender (client events): (client, session, connection entity bits).
+    pub sender: Option<(usize, u32, u64)>,
+    /// Referenced server entity.
+    pub reference: Option<u64>,
+    pub emit_frame: u32,
+}
+
+#[derive(Clone, Debug, Serialize)]
+pub struct EvEnv {
+    /// The last k in-flight update messages may be held for a step.
+    pub hold_updates: usize,
+    /// Event channels (all of them together) may be held for a step.
+    pub hold_events: bool,
+    /// Unordered / unreliable event channels may be delivered in reverse order.
+    pub reorder: bool,
+    /// Unreliable event messages may be dropped.
+    pub drop_unreliable: bool,
+    /// Client -> server event channels may be held for a step.
+    pub hold_client_events: bool,
+}
+
+#[derive(Clone, Debug, Serialize, Default)]
+pub struct EvOracles {
+    pub c04: bool,
+    pub c05: bool,
+    pub c07: bool,
+    pub convergence: bool,
+}
+
+#[derive(Clone, Debug, Serialize)]
+pub struct EvCell {
+    pub name: String,
+    pub property: &'static str,
+    pub cfg: Cfg,
+    pub connect_at_start: Vec<usize>,
+    pub init: Vec<Op>,
+    pub alphabet: Vec<EvOp>,
+    pub rounds: usize,
+    pub tick_choice: bool,
+    pub env: EvEnv,
+    pub oracles: EvOracles,
+    pub closure_rounds: usize,
+}
+
+#[derive(Clone, Copy, Debug, PartialEq, Eq)]
+enum Phase {
+    Op,
+    Tick,
+    ToServer(usize),
+    ServerFrame,
+    Upd(usize),
+    Events(usize),
+    ClientFrame(usize),
+    Done,
+}
+
+pub struct EvExec {
+    pub sim: Sim,
+    round: usize,
+    phase: Phase,
+    round_op: EvOp,
+    round_tick: bool,
+    line: String,
+    next_n: u8,
+    pub emitted: Vec<Emitted>,
+    /// (client, session, tag, n) -> number of deliveries observed on that client
+    delivered: BTreeMap<(usize, u32, u8, u8), u32>,
+    /// per client and ordered kind: last sequence number observed
+    last_ordered: BTreeMap<(usize, u8), u8>,
+    /// (tag, n) -> deliveries observed on the server (client events)
+    server_delivered: BTreeMap<(u8, u8), u32>,
+    server_last_ordered: BTreeMap<(usize, u8), u8>,
+    /// (client, tag, n) -> server frame in which the marker first appeared on the wire to that client
+    wire_frame: BTreeMap<(usize, u8, u8), u32>,
+    /// (client, tag, n) -> client frame in which the marker first appeared on the wire from that client
+    cwire_frame: BTreeMap<(usize, u8, u8), u32>,
+    wire_seen: usize,
+    states: Vec<u64>,
+    events_emitted: u32,
+    events_observed: u32,
+}
+
+const UPD: usize = 0;
+const MUT: usize = 1;
+
+impl EvCell {
+    fn clients(&self) -> usize {
+        self.cfg.clients.len()
+    }
+
+    fn v(&self, oracle: &str, detail: String) -> Violation {
+        Violation::new(self.property, oracle, detail)
+    }
+    fn own(&self, mut v: Violation) -> Violation {
+        if v.property.is_empty() {
+            v.property = self.property.to_string();
+        }
+        v
+    }
+
+    fn connected(x: &EvExec, c: usize) -> bool {
+        x.sim.clients[c].conn.is_some()
+    }
+
+    fn op_enabled(&self, x: &EvExec, op: EvOp) -> bool {
+        match op {
+            EvOp::Nop => true,
+            EvOp::World(op) => x.sim.enabled(op),
+            EvOp::EmitS(_, mode, r) => {
+                let target_ok = match mode {
+                    Mode::Broadcast => true,
+                    Mode::Except(_) => true,
+                    Mode::Direct(c) => Self::connected(x, c as usize),
+                };
+                target_ok && r.is_none_or(|s| x.sim.marked(s))
+            }
+            EvOp::EmitC(c, _, r) => {
+                Self::connected(x, c as usize)
+                    && r.is_none_or(|s| {
+                        x.sim.alive(s).is_some_and(|e| {
+                            x.sim.clients[c as usize]
+                                .app
+                                .world()
+                                .resource::<ServerEntityMap>()
+                                .to_client()
+                                .contains_key(&e)
+                        })
+                    })
+            }
+            EvOp::Connect(c) => !Self::connected(x, c as usize),
+            EvOp::Disconnect(c) => Self::connected(x, c as usize),
+            EvOp::Authorize(c) => {
+                self.cfg.auth == Auth::Custom
+                    && Self::connected(x, c as usize)
+                    && !x.sim.is_authorized(c as usize)
+            }
+        }
+    }
+
+    fn enabled_ops(&self, x: &EvExec) -> Vec<EvOp> {
+        self.alphabet
+            .iter()
+            .copied()
+            .filter(|&op| self.op_enabled(x, op))
+            .collect()
+    }
+
+    fn server_event_channels(&self, x: &EvExec) -> Vec<(SK, usize)> {
+        let ch = x.sim.server.world().resource::<EvChannels>();
+        ch.server.iter().map(|(k, c)| (*k, *c)).collect()
+    }
+
+    fn client_event_channels(&self, x: &EvExec) -> Vec<(CK, usize)> {
+        let ch = x.sim.server.world().resource::<EvChannels>();
+        ch.client.iter().map(|(k, c)| (*k, *c)).collect()
+    }
+
+    fn apply_ev_op(&self, x: &mut EvExec, op: EvOp) {
+        match op {
+            EvOp::Nop => {}
+            EvOp::World(op) => x.sim.apply_op(op),
+            EvOp::Connect(c) => x.sim.connect(c as usize),
+            EvOp::Disconnect(c) => x.sim.disconnect(c as usize),
+            EvOp::Authorize(c) => {
+                let conn = x.sim.clients[c as usize].conn.unwrap();
+                x.sim.server.world_mut().entity_mut(conn).insert(AuthorizedClient);
+            }
+            EvOp::EmitS(kind, mode, r) => {
+                let n = x.next_n;
+                x.next_n += 1;
+                x.events_emitted += 1;
+                let s = seq(kind.tag(), n);
+                let conn_of = |c: u8| x.sim.clients[c as usize].conn.unwrap_or(Entity::PLACEHOLDER);
+                let send_mode = match mode {
+                    Mode::Broadcast => SendMode::Broadcast,
+                    Mode::Except(c) => SendMode::BroadcastExcept(conn_of(c)),
+                    Mode::Direct(c) => SendMode::Direct(conn_of(c)),
+                };
+                // Reference model of the intended recipients, fixed at emission: connected
+                // clients selected by the mode; dependent kinds additionally need authorization.
+                let mut recipients = BTreeSet::new();
+                for c in 0..self.clients() {
+                    if !Self::connected(x, c) {
+                        continue;
+                    }
+                    let selected = match mode {
+                        Mode::Broadcast => true,
+                        Mode::Except(e) => e as usize != c,
+                        Mode::Direct(d) => d as usize == c,
+                    };
+                    if selected {
+                        recipients.insert((c, x.sim.clients[c].session));
+                    }
+                }
+                let reference = r.and_then(|s| x.sim.alive(s));
+                let w = x.sim.server.world_mut();
+                match kind {
+                    SK::E1 => {
+                        w.send_event(ToClients { mode: send_mode, event: E1(s) });
+                    }
+                    SK::E2 => {
+                        w.send_event(ToClients { mode: send_mode, event: E2(s) });
+                    }
+                    SK::E3 => {
+                        w.send_event(ToClients { mode: send_mode, event: E3(s) });
+                    }
+                    SK::EI => {
+                        w.send_event(ToClients { mode: send_mode, event: EI(s) });
+                    }
+                    SK::EM => {
+                        w.send_event(ToClients {
+                            mode: send_mode,
+                            event: EM { seq: s, e: reference.expect("EM needs a reference") },
+                        });
+                    }
+                    SK::T1 => match reference {
+                        Some(e) => w.server_trigger_targets(ToClients { mode: send_mode, event: T1(s) }, e),
+                        None => w.server_trigger(ToClients { mode: send_mode, event: T1(s) }),
+                    },
+                    SK::TI => w.server_trigger(ToClients { mode: send_mode, event: TI(s) }),
+                }
+                x.emitted.push(Emitted {
+                    tag: kind.tag(),
+                    n,
+                    server_kind: Some(kind),
+                    client_kind: None,
+                    recipients,
+                    sender: None,
+                    reference: reference.map(|e| e.to_bits()),
+                    emit_frame: x.sim.server_frames,
+                });
+            }
+            EvOp::EmitC(c, kind, r) => {
+                let c = c as usize;
+                let n = x.next_n;
+                x.next_n += 1;
+                x.events_emitted += 1;
+                let s = seq(kind.tag(), n);
+                let server_entity = r.and_then(|s| x.sim.alive(s));
+                let client_entity = server_entity.map(|e| {
+                    *x.sim.clients[c]
+                        .app
+                        .world()
+                        .resource::<ServerEntityMap>()
+                        .to_client()
+                        .get(&e)
+                        .expect("reference is mapped")
+                });
+                let conn = x.sim.clients[c].conn.unwrap();
+                let session = x.sim.clients[c].session;
+                let w = x.sim.clients[c].app.world_mut();
+                match kind {
+                    CK::C1 => {
+                        w.send_event(C1(s));
+                    }
+                    CK::C2 => {
+                        w.send_event(C2(s));
+                    }
+                    CK::C3 => {
+                        w.send_event(C3(s));
+                    }
+                    CK::CM => {
+                        w.send_event(CM { seq: s, e: client_entity.expect("CM needs a reference") });
+                    }
+                    CK::CT => match client_entity {
+                        Some(e) => w.client_trigger_targets(CT(s), e),
+                        None => w.client_trigger(CT(s)),
+                    },
+                }
+                x.emitted.push(Emitted {
+                    tag: kind.tag(),
+                    n,
+                    server_kind: None,
+                    client_kind: Some(kind),
+                    recipients: BTreeSet::new(),
+                    sender: Some((c, session, conn.to_bits())),
+                    reference: server_entity.map(|e| e.to_bits()),
+                    emit_frame: x.sim.server_frames,
+                });
+            }
+        }
+    }
+
+    fn advance(&self, x: &mut EvExec) {
+        loop {
+            x.phase = match x.phase {
+                Phase::Op => Phase::Tick,
+                Phase::Tick => Phase::ToServer(0),
+                Phase::ToServer(c) if c + 1 < self.clients() => Phase::ToServer(c + 1),
+                Phase::ToServer(_) => Phase::ServerFrame,
+                Phase::ServerFrame => Phase::Upd(0),
+                Phase::Upd(c) => Phase::Events(c),
+                Phase::Events(c) => Phase::ClientFrame(c),
+                Phase::ClientFrame(c) if c + 1 < self.clients() => Phase::Upd(c + 1),
+                Phase::ClientFrame(_) => {
+                    x.round += 1;
+                    if x.round < self.rounds { Phase::Op } else { Phase::Done }
+                }
+                Phase::Done => Phase::Done,
+            };
+            match x.phase {
+                Phase::Tick if !self.tick_choice => continue,
+                _ => break,
+            }
+        }
+    }
+
+    fn events_in_flight_to_client(&self, x: &EvExec, c: usize) -> usize {
+        (2..x.sim.server_channels.len()).map(|ch| x.sim.clients[c].s2c[ch].len()).sum()
+    }
+
+    fn events_in_flight_to_server(&self, x: &EvExec, c: usize) -> usize {
+        (1..x.sim.client_channels.len()).map(|ch| x.sim.clients[c].c2s[ch].len()).sum()
+    }
+
+    /// Scans new wire records: resend detection (C05) and unauthorized traffic (C07).
+    fn scan_server_wire(&self, x: &mut EvExec) -> Result<(), Violation> {
+        let independent: BTreeSet<usize> = {
+            let ch = x.sim.server.world().resource::<EvChannels>();
+            let mut s: BTreeSet<usize> = ch
+                .server
+                .iter()
+                .filter(|(k, _)| k.independent())
+                .map(|(_, c)| *c)
+                .collect();
+            if self.cfg.auth == Auth::ProtocolCheck {
+                // ProtocolMismatch is registered by the shared plugin as an independent trigger
+                // right after the two replication channels.
+                s.insert(2);
+            }
+            s
+        };
+        while x.wire_seen < x.sim.wire.len() {
+            let w = x.sim.wire[x.wire_seen].clone();
+            x.wire_seen += 1;
+            for (tag, n) in seqs_in(&w.bytes) {
+                if w.channel < 2 {
+                    continue;
+                }
+                let key = (w.client, tag, n);
+                match x.wire_frame.get(&key) {
+                    None => {
+                        x.wire_frame.insert(key, w.server_frame);
+                    }
+                    Some(&f) => {
+                        if self.oracles.c05 {
+                            return Err(self.v(
+                                "sent-again",
+                                format!(
+                                    "event #{n} (kind tag {tag}) was put on the wire to c{} in server frame {f} and again in frame {}",
+                                    w.client, w.server_frame
+                                ),
+                            ));
+                        }
+                    }
+                }
+            }
+            if self.oracles.c07 && !x.sim.is_authorized(w.client) && !independent.contains(&w.channel) {
+                return Err(self
+                    .v(
+                        "sent-to-unauthorized",
+                        format!(
+                            "server frame {} sent {} bytes on channel {} to c{} which is connected but not authorized",
+                            w.server_frame,
+                            w.bytes.len(),
+                            w.channel,
+                            w.client
+                        ),
+                    )
+                    .feat(format!("channel:{}", w.channel.min(2))));
+            }
+        }
+        Ok(())
+    }
+
+    fn scan_client_wire(&self, x: &mut EvExec, c: usize) -> Result<(), Violation> {
+        let frame = x.sim.clients[c].frames;
+        let mut found = Vec::new();
+        for q in x.sim.clients[c].c2s.iter().skip(1) {
+            for m in q {
+                if m.frame == frame {
+                    found.extend(seqs_in(&m.bytes));
+                }
+            }
+        }
+        for (tag, n) in found {
+            let key = (c, tag, n);
+            match x.cwire_frame.get(&key) {
+                None => {
+                    x.cwire_frame.insert(key, frame);
+                }
+                Some(&f) if f != frame && self.oracles.c05 => {
+                    return Err(self.v(
+                        "sent-again",
+                        format!("client event #{n} (kind tag {tag}) was sent by c{c} in its frame {f} and again in frame {frame}"),
+                    ));
+                }
+                _ => {}
+            }
+        }
+        Ok(())
+    }
+
+    /// Oracles on what client `c` observed in its last frame.
+    fn check_client_observations(&self, x: &mut EvExec, c: usize) -> Result<(), Violation> {
+        let obs = drain_observed(&mut x.sim.clients[c].app);
+        let session = x.sim.clients[c].session;
+        for o in obs {
+            x.events_observed += 1;
+            (c, &o).hash(&mut x.sim.trace);
+            let Some(em) = x.emitted.iter().find(|e| e.tag == o.tag && e.n == o.n).cloned() else {
+                return Err(self.v(
+                    "unknown-event",
+                    format!("c{c} observed event #{} (tag {}) that was never emitted", o.n, o.tag),
+                ));
+            };
+            // A client event re-emitted locally inside a client app (singleplayer semantics
+            // after a disconnect) is C13's subject, not an event delivery from the server.
+            let Some(kind) = em.server_kind else { continue };
+            let count = x.delivered.entry((c, session, o.tag, o.n)).or_insert(0);
+            *count += 1;
+            if *count > 1 {
+                return Err(self
+                    .v(
+                        "delivered-twice",
+                        format!("c{c} observed {kind:?} #{} {} times", o.n, *count),
+                    )
+                    .feat(format!("kind:{kind:?}")));
+            }
+            if self.oracles.c05 {
+                if !em.recipients.contains(&(c, session)) {
+                    return Err(self
+                        .v(
+                            "wrong-recipient",
+                            format!(
+                                "c{c} (session {session}) observed {kind:?} #{} but the intended recipients at emission were {:?}",
+                                o.n, em.recipients
+                            ),
+                        )
+                        .feat(format!("kind:{kind:?}")));
+                }
+                if kind.ordered() {
+                    let key = (c, o.tag);
+                    if let Some(&prev) = x.last_ordered.get(&key) {
+                        if o.n < prev {
+                            return Err(self
+                                .v(
+                                    "out-of-order",
+                                    format!("c{c} observed {kind:?} #{} after #{prev} on an ordered channel", o.n),
+                                )
+                                .feat(format!("kind:{kind:?}")));
+                        }
+                    }
+                    x.last_ordered.insert(key, o.n);
+                }
+            }
+            if self.oracles.c04 && !kind.independent() {
+                // The event must not be handed over before every update message the server
+                // had sent to this client up to the frame that flushed the event.
+                let Some(&flush_frame) = x.wire_frame.get(&(c, o.tag, o.n)) else {
+                    return Err(self.v(
+                        "unknown-event",
+                        format!("c{c} observed {kind:?} #{} that never appeared on the wire to it", o.n),
+                    ));
+                };
+                let required = x
+                    .sim
+                    .wire
+                    .iter()
+                    .filter(|w| w.client == c && w.channel == UPD && w.server_frame <= flush_frame)
+                    .map(|w| w.tick)
+                    .max()
+                    .unwrap_or(0);
+                if o.update_tick < required {
+                    return Err(self
+                        .v(
+                            "event-before-replication",
+                            format!(
+                                "c{c} was handed {kind:?} #{} at update tick {} but the server had sent it an update message for tick {required} before the event",
+                                o.n, o.update_tick
+                            ),
+                        )
+                        .feat(format!("kind:{kind:?}")));
+                }
+                if let Some(reference) = em.reference {
+                    if o.entity_as_server != Some(reference) || !o.entity_alive {
+                        return Err(self
+                            .v(
+                                "wrong-reference",
+                                format!(
+                                    "c{c} was handed {kind:?} #{} referencing {:?} (as server entity {:?}, alive {}), expected its own entity for {}",
+                                    o.n,
+                                    o.entity.map(fmt_bits),
+                                    o.entity_as_server.map(fmt_bits),
+                                    o.entity_alive,
+                                    fmt_bits(reference)
+                                ),
+                            )
+                            .feat(format!("kind:{kind:?}")));
+                    }
+                }
+            }
+        }
+        Ok(())
+    }
+
+    fn check_server_observations(&self, x: &mut EvExec) -> Result<(), Violation> {
+        let obs = drain_observed(&mut x.sim.server);
+        for o in obs {
+            x.events_observed += 1;
+            o.hash(&mut x.sim.trace);
+            let Some(em) = x.emitted.iter().find(|e| e.tag == o.tag && e.n == o.n).cloned() else {
+                return Err(self.v(
+                    "unknown-event",
+                    format!("server observed event #{} (tag {}) that was never emitted", o.n, o.tag),
+                ));
+            };
+            // The server app also observes its own broadcasts locally (the local server is one
+            // of the recipients); that path belongs to C13.
+            let Some(kind) = em.client_kind else { continue };
+            let count = x.server_delivered.entry((o.tag, o.n)).or_insert(0);
+            *count += 1;
+            if *count > 1 {
+                return Err(self
+                    .v("delivered-twice", format!("server observed {kind:?} #{} {} times", o.n, *count))
+                    .feat(format!("kind:{kind:?}")));
+            }
+            let (c, _session, conn) = em.sender.unwrap();
+            if self.oracles.c05 {
+                if o.from != Some(conn) {
+                    return Err(self
+                        .v(
+                            "wrong-sender",
+                            format!(
+                                "server observed {kind:?} #{} from {:?}, but it was sent by c{c} whose connection entity is {}",
+                                o.n,
+                                o.from.map(fmt_bits),
+                                fmt_bits(conn)
+                            ),
+                        )
+                        .feat(format!("kind:{kind:?}")));
+                }
+                if kind.ordered() {
+                    let key = (c, o.tag);
+                    if let Some(&prev) = x.server_last_ordered.get(&key) {
+                        if o.n < prev {
+                            return Err(self
+                                .v(
+                                    "out-of-order",
+                                    format!("server observed {kind:?} #{} from c{c} after #{prev} on an ordered channel", o.n),
+                                )
+                                .feat(format!("kind:{kind:?}")));
+                        }
+                    }
+                    x.server_last_ordered.insert(key, o.n);
+                }
+                if let Some(reference) = em.reference {
+                    if o.entity != Some(reference) {
+                        return Err(self
+                            .v(
+                                "wrong-reference",
+                                format!(
+                                    "server observed {kind:?} #{} referencing {:?}, expected {}",
+                                    o.n,
+                                    o.entity.map(fmt_bits),
+                                    fmt_bits(reference)
+                                ),
+                            )
+                            .feat(format!("kind:{kind:?}")));
+                    }
+                }
+            }
+        }
+        Ok(())
+    }
+
+    fn server_frame(&self, x: &mut EvExec, tick: bool) -> Result<(), Violation> {
+        x.sim.server_frame(tick).map_err(|v| self.own(v))?;
+        self.scan_server_wire(x)?;
+        self.check_server_observations(x)?;
+        let mut h = std::collections::hash_map::DefaultHasher::new();
+        (x.sim.server_tick(), x.sim.in_flight_digest(), x.sim.server_snap()).hash(&mut h);
+        x.states.push(h.finish());
+        Ok(())
+    }
+
+    fn client_frame(&self, x: &mut EvExec, c: usize) -> Result<(), Violation> {
+        x.sim.client_frame(c).map_err(|v| self.own(v))?;
+        self.scan_client_wire(x, c)?;
+        self.check_client_observations(x, c)?;
+        let view = x.sim.client_view(c);
+        let mut h = std::collections::hash_map::DefaultHasher::new();
+        (c, &view, x.sim.in_flight_digest()).hash(&mut h);
+        h.finish().hash(&mut x.sim.trace);
+        x.states.push(h.finish());
+        Ok(())
+    }
+
+    fn lockstep_round(&self, x: &mut EvExec, tick: bool) -> Result<(), Violation> {
+        for c in 0..self.clients() {
+            for ch in 0..x.sim.client_channels.len() {
+                x.sim.deliver_to_server(c, ch, &Sel::All);
+            }
+        }
+        self.server_frame(x, tick)?;
+        for c in 0..self.clients() {
+            for ch in 0..x.sim.server_channels.len() {
+                x.sim.deliver_to_client(c, ch, &Sel::All);
+            }
+            self.client_frame(x, c)?;
+        }
+        Ok(())
+    }
+
+    /// End-of-closure obligations.
+    fn final_check(&self, x: &mut EvExec) -> Result<(), Violation> {
+        if self.oracles.c05 || self.oracles.c04 {
+            for em in x.emitted.clone() {
+                if let Some(kind) = em.server_kind {
+                    if !kind.reliable() {
+                        continue;
+                    }
+                    for &(c, session) in &em.recipients {
+                        // Released: the recipient's session ended, or (dependent kinds) it was
+                        // not authorized when the event was flushed.
+                        if x.sim.clients[c].session != session || x.sim.clients[c].conn.is_none() {
+                            continue;
+                        }
+                        // Dependent kinds need the recipient to be authorized when the event
+                        // is flushed; without authentication connecting authorizes at once.
+                        let on_wire = x.wire_frame.contains_key(&(c, em.tag, em.n));
+                        let required = kind.independent() || self.cfg.auth == Auth::None || on_wire;
+                        if !required {
+                            continue;
+                        }
+                        if let Some(r) = em.reference {
+                            // An event whose reference cannot be resolved any more is withheld.
+                            let still = x.sim.server_snap().contains_key(&r)
+                                && x.sim.visible_now(c, r);
+                            if !still {
+                                continue;
+                            }
+                        }
+                        let got = x.delivered.get(&(c, session, em.tag, em.n)).copied().unwrap_or(0);
+                        if got != 1 {
+                            return Err(self
+                                .v(
+                                    "not-delivered",
+                                    format!(
+                                        "{kind:?} #{} was emitted for c{c} over a reliable channel and everything was delivered, but c{c} observed it {got} times",
+                                        em.n
+                                    ),
+                                )
+                                .feat(format!("kind:{kind:?}")));
+                        }
+                    }
+                } else if let Some(kind) = em.client_kind {
+                    if !kind.reliable() || !self.oracles.c05 {
+                        continue;
+                    }
+                    let (c, session, _) = em.sender.unwrap();
+                    if x.sim.clients[c].session != session || x.sim.clients[c].conn.is_none() {
+                        continue;
+                    }
+                    let got = x.server_delivered.get(&(em.tag, em.n)).copied().unwrap_or(0);
+                    if got != 1 {
+                        return Err(self
+                            .v(
+                                "not-delivered",
+                                format!("{kind:?} #{} from c{c} was observed {got} times by the server", em.n),
+                            )
+                            .feat(format!("kind:{kind:?}")));
+                    }
+                }
+            }
+        }
+        if self.oracles.c07 {
+            for &c in &self.cfg.mismatch {
+                let Some(conn) = x.sim.clients[c].conn else { continue };
+                if x.sim.is_authorized(c) {
+                    return Err(self.v(
+                        "mismatch-authorized",
+                        format!("c{c} was built with a different protocol but got authorized"),
+                    ));
+                }
+                let notified = x.sim.wire.iter().any(|w| w.client == c && w.channel == 2);
+                if !notified {
+                    return Err(self.v(
+                        "mismatch-not-notified",
+                        format!("c{c} sent a different protocol hash but no ProtocolMismatch was sent to it"),
+                    ));
+                }
+                let asked = x
+                    .sim
+                    .server
+                    .world()
+                    .resource::<DisconnectSeen>()
+                    .0
+                    .contains(&conn.to_bits());
+                if !asked {
+                    return Err(self.v(
+                        "mismatch-no-disconnect-request",
+                        format!("c{c} sent a different protocol hash but no DisconnectRequest names it"),
+                    ));
+                }
+            }
+        }
+        if self.oracles.convergence {
+            let server = x.sim.server_snap();
+            for c in 0..self.clients() {
+                if !x.sim.is_authorized(c) {
+                    continue;
+                }
+                let view = x.sim.client_view(c);
+                x.sim.converged(c, &server, &view, true).map_err(|v| self.own(v))?;
+            }
+        }
+        Ok(())
+    }
+}
+
+impl Scenario for EvCell {
+    type Exec = EvExec;
+
+    fn name(&self) -> String {
+        self.name.clone()
+    }
+    fn cell(&self) -> serde_json::Value {
+        serde_json::to_value(self).unwrap()
+    }
+
+    fn start(&self) -> EvExec {
+        let mut sim = Sim::new(&self.cfg);
+        for &c in &self.connect_at_start {
+            sim.connect(c);
+        }
+        let mut x = EvExec {
+            sim,
+            round: 0,
+            phase: Phase::Op,
+            round_op: EvOp::Nop,
+            round_tick: true,
+            line: String::new(),
+            next_n: 1,
+            emitted: vec![],
+            delivered: BTreeMap::new(),
+            last_ordered: BTreeMap::new(),
+            server_delivered: BTreeMap::new(),
+            server_last_ordered: BTreeMap::new(),
+            wire_frame: BTreeMap::new(),
+            cwire_frame: BTreeMap::new(),
+            wire_seen: 0,
+            states: vec![],
+            events_emitted: 0,
+            events_observed: 0,
+        };
+        let r = (|| -> Result<(), Violation> {
+            self.lockstep_round(&mut x, true)?;
+            for &op in &self.init {
+                assert!(x.sim.enabled(op), "initial op {op:?} not enabled in {}", self.name);
+                x.sim.apply_op(op);
+            }
+            for _ in 0..3 {
+                self.lockstep_round(&mut x, true)?;
+            }
+            self.lockstep_round(&mut x, false)?;
+            Ok(())
+        })();
+        if let Err(v) = r {
+            panic!("cell {}: violation during set-up: {} {}", self.name, v.oracle, v.detail);
+        }
+        x.sim.steps.clear();
+        x.states.clear();
+        if self.rounds == 0 {
+            x.phase = Phase::Done;
+        }
+        x
+    }
+
+    fn next(&self, x: &mut EvExec) -> Option<ChoicePoint> {
+        match x.phase {
+            Phase::Op => Some(ChoicePoint::history(
+                "op",
+                self.enabled_ops(x).iter().map(|o| o.show()).collect(),
+            )),
+            Phase::Tick => Some(ChoicePoint::history("tick", vec!["tick".into(), "no tick".into()])),
+            Phase::ToServer(c) => {
+                let n = self.events_in_flight_to_server(x, c);
+                let mut alts = vec![("deliver".to_string(), 0)];
+                if n > 0 && self.env.hold_client_events {
+                    alts.push(("hold client events".into(), 1));
+                    if self.env.reorder && n > 1 {
+                        alts.push(("reversed".into(), 1));
+                    }
+                }
+                Some(ChoicePoint::env("to-server", alts))
+            }
+            Phase::Upd(c) => {
+                let n = x.sim.clients[c].s2c[UPD].len();
+                let mut alts = vec![("all".to_string(), 0)];
+                for k in 1..=self.env.hold_updates.min(n) {
+                    alts.push((format!("hold last {k} of {n}"), 1));
+                }
+                Some(ChoicePoint::env("upd", alts))
+            }
+            Phase::Events(c) => {
+                let n = self.events_in_flight_to_client(x, c);
+                let mut alts = vec![("all".to_string(), 0)];
+                if n > 0 {
+                    if self.env.hold_events {
+                        alts.push(("hold events".into(), 1));
+                    }
+                    if self.env.reorder && n > 1 {
+                        alts.push(("reversed".into(), 1));
+                    }
+                    if self.env.drop_unreliable {
+                        alts.push(("drop unreliable".into(), 1));
+                    }
+                }
+                Some(ChoicePoint::env("events", alts))
+            }
+            Phase::ServerFrame | Phase::ClientFrame(_) => unreachable!(),
+            Phase::Done => None,
+        }
+    }
+
+    fn apply(&self, x: &mut EvExec, alt: usize) -> Result<(), Violation> {
+        match x.phase {
+            Phase::Op => {
+                let ops = self.enabled_ops(x);
+                let op = ops[alt];
+                x.round_op = op;
+                x.round_tick = true;
+                self.apply_ev_op(x, op);
+                self.advance(x);
+            }
+            Phase::Tick => {
+                x.round_tick = alt == 0;
+                self.advance(x);
+            }
+            Phase::ToServer(c) => {
+                // acks always flow; event channels per the choice
+                x.sim.deliver_to_server(c, 0, &Sel::All);
+                let label = self.next(x).unwrap().alts[alt].clone();
+                for (kind, ch) in self.client_event_channels(x) {
+                    let n = x.sim.clients[c].c2s[ch].len();
+                    match label.as_str() {
+                        "deliver" => {
+                            x.sim.deliver_to_server(c, ch, &Sel::All);
+                        }
+                        "reversed" if !kind.ordered() => {
+                            x.sim.deliver_to_server(c, ch, &Sel::Indices((0..n).rev().collect()));
+                        }
+                        "reversed" => {
+                            x.sim.deliver_to_server(c, ch, &Sel::All);
+                        }
+                        _ => {}
+                    }
+                }
+                // the protocol hash trigger channel (default auth) sits before the vocabulary
+                if self.cfg.auth == Auth::ProtocolCheck {
+                    if label == "deliver" {
+                        x.sim.deliver_to_server(c, 1, &Sel::All);
+                    }
+                }
+                if alt > 0 {
+                    x.line.push_str(&format!(" c{c}->server: {label};"));
+                }
+                self.advance(x);
+            }
+            Phase::Upd(c) => {
+                let n = x.sim.clients[c].s2c[UPD].len();
+                let k = n - alt;
+                if alt > 0 {
+                    x.line.push_str(&format!(" updates {k} of {n};"));
+                }
+                x.sim.deliver_to_client(c, UPD, &Sel::Prefix(k));
+                x.sim.deliver_to_client(c, MUT, &Sel::All);
+                self.advance(x);
+            }
+            Phase::Events(c) => {
+                let label = self.next(x).unwrap().alts[alt].clone();
+                let chans: Vec<(Option<SK>, usize)> = {
+                    let known = self.server_event_channels(x);
+                    (2..x.sim.server_channels.len())
+                        .map(|ch| (known.iter().find(|(_, c)| *c == ch).map(|(k, _)| *k), ch))
+                        .collect()
+                };
+                for (kind, ch) in chans {
+                    let n = x.sim.clients[c].s2c[ch].len();
+                    let unreliable = kind.is_some_and(|k| !k.reliable());
+                    let ordered = kind.is_none_or(|k| k.ordered());
+                    match label.as_str() {
+                        "all" => {
+                            x.sim.deliver_to_client(c, ch, &Sel::All);
+                        }
+                        "reversed" if !ordered => {
+                            x.sim.deliver_to_client(c, ch, &Sel::Indices((0..n).rev().collect()));
+                        }
+                        "reversed" => {
+                            x.sim.deliver_to_client(c, ch, &Sel::All);
+                        }
+                        "drop unreliable" if unreliable => {
+                            x.sim.clients[c].s2c[ch].clear();
+                        }
+                        "drop unreliable" => {
+                            x.sim.deliver_to_client(c, ch, &Sel::All);
+                        }
+                        _ => {}
+                    }
+                }
+                if alt > 0 {
+                    x.line.push_str(&format!(" events: {label};"));
+                }
+                self.advance(x);
+            }
+            _ => unreachable!(),
+        }
+        loop {
+            match x.phase {
+                Phase::ServerFrame => {
+                    let line = format!(
+                        "round {}: server: {}, {}{}",
+                        x.round + 1,
+                        x.round_op.show(),
+                        if x.round_tick { "tick" } else { "no tick" },
+                        std::mem::take(&mut x.line)
+                    );
+                    x.sim.note(line);
+                    self.server_frame(x, x.round_tick)?;
+                    let sent: Vec<String> = x
+                        .sim
+                        .wire
+                        .iter()
+                        .rev()
+                        .take_while(|w| w.server_frame == x.sim.server_frames)
+                        .map(|w| format!("c{}/ch{}:{}B", w.client, w.channel, w.bytes.len()))
+                        .collect();
+                    let tick = x.sim.server_tick();
+                    x.sim.note(format!("    server tick {tick} sent [{}]", sent.join(" ")));
+                    self.advance(x);
+                }
+                Phase::ClientFrame(c) => {
+                    let line = format!("  client c{c}:{}", std::mem::take(&mut x.line));
+                    x.sim.note(line);
+                    if x.sim.clients[c].conn.is_some() {
+                        self.client_frame(x, c)?;
+                    } else {
+                        // A disconnected client still runs frames.
+                        self.client_frame(x, c)?;
+                    }
+                    let view = x.sim.client_view(c);
+                    let seen: Vec<String> = x
+                        .delivered
+                        .iter()
+                        .filter(|(k, _)| k.0 == c)
+                        .map(|(k, n)| format!("#{}x{}", k.3, n))
+                        .collect();
+                    x.sim.note(format!("    view {} events so far [{}]", view.show(), seen.join(" ")));
+                    self.advance(x);
+                }
+                _ => break,
+            }
+        }
+        Ok(())
+    }
+
+    fn finish(&self, x: &mut EvExec) -> Result<(), Violation> {
+        x.sim.note("closure: lock-step rounds with ticks, everything delivered");
+        for _ in 0..self.closure_rounds {
+            self.lockstep_round(x, true)?;
+        }
+        self.final_check(x)
+    }
+
+    fn summary(&self, x: &mut EvExec) -> Summary {
+        let mut oh = std::collections::hash_map::DefaultHasher::new();
+        x.delivered.hash(&mut oh);
+        x.server_delivered.hash(&mut oh);
+        Summary {
+            outcome: oh.finish(),
+            nontrivial: x.events_emitted > 0 && (x.events_observed > 0 || self.oracles.c07),
+            states: std::mem::take(&mut x.states),
+            transitions: x.sim.transitions,
+            trace_digest: x.sim.trace.clone().finish(),
+            steps: x.sim.steps.clone(),
+        }
+    }
+}
